@@ -285,9 +285,13 @@ def histOracleGo (f : Fam) (kind : String) : Text → List Model.HOp → List HT
   | _, [], [], _ => none
   | pre, op :: ops, tok :: toks, k =>
     if !hopArgOk f (kind == "full") op then
-      (match tok with
-       | .invalid => none
-       | _ => some s!"step {k}: an invalid argument was accepted")
+      (match tok, op with
+       | .invalid, _ => none
+       -- no authority: `authority_mut()` gave no handle, nothing was called with the argument
+       | .noauth, .am _ =>
+         if (split pre).authority.isNone then histOracleGo f kind pre ops toks (k + 1)
+         else some s!"step {k}: authority_mut() returned None although an authority is present"
+       | _, _ => some s!"step {k}: an invalid argument was accepted")
     else
       let r := if kind == "path" then histPathStep f pre op tok else histStep f kind pre op tok
       match r with
